@@ -197,18 +197,27 @@ def parseDot (text : String) : Option (List Stmt) :=
 
 /-! ### the graph that was read back -/
 
-def entryOf (ss : List Stmt) : Option Nat :=
-  ss.findSome? fun | .initEdge p => some p | _ => none
+def entryAt : Stmt → Option Nat
+  | .initEdge p => some p
+  | _ => none
 
-def findVertex (ss : List Stmt) (p : Nat) : Option String :=
-  ss.findSome? fun | .vertex q l => if q = p then some l else none | _ => none
+def vertexAt (p : Nat) : Stmt → Option String
+  | .vertex q l => if q = p then some l else none
+  | _ => none
 
-def findEdge (ss : List Stmt) (p : Nat) (st : Style) : Option Nat :=
-  ss.findSome? fun | .edge q r s => if q = p ∧ s = st then some r else none | _ => none
+def edgeAt (p : Nat) (st : Style) : Stmt → Option Nat
+  | .edge q r s => if q = p ∧ s = st then some r else none
+  | _ => none
 
 /-- a terminal vertex is identified by its id, which is also its label -/
-def findTerminal (ss : List Stmt) (p : Nat) : Option Bool :=
-  ss.findSome? fun | .terminal b => if boolNat b = p then some b else none | _ => none
+def terminalAt (p : Nat) : Stmt → Option Bool
+  | .terminal b => if boolNat b = p then some b else none
+  | _ => none
+
+def entryOf (ss : List Stmt) : Option Nat := ss.findSome? entryAt
+def findVertex (ss : List Stmt) (p : Nat) : Option String := ss.findSome? (vertexAt p)
+def findEdge (ss : List Stmt) (p : Nat) (st : Style) : Option Nat := ss.findSome? (edgeAt p st)
+def findTerminal (ss : List Stmt) (p : Nat) : Option Bool := ss.findSome? (terminalAt p)
 
 /-- walk from vertex `p`: a terminal vertex gives its label, a decision vertex is left through its solid
     edge if its label is true in `val` and through its dotted edge otherwise; a missing edge, an undeclared
